@@ -622,6 +622,53 @@ def run_alias(run, cfg, G):
                        "the model predicts exactly which held items are overwritten; non-trivial = at least one held item intact or changed; distinct = distinct case lines")
 
 
+# ------------------------------------------------------------------------------------ corpora (C12, C15, C16)
+
+CORPUS = os.path.join(VERIF, "corpus")
+ZVC_SRC = os.path.join(VERIF, "harness", "zvc", "src")
+
+
+def corpus_sizes(run):
+    return {"proxy": 600 if run.tier == "thorough" else 60}
+
+
+def pregen_corpora(run, cfg, G):
+    """(Re)generates every generated source of the corpus crate from the seed, so that it builds."""
+    import subprocess, sys
+    n = corpus_sizes(run)
+    subprocess.run([sys.executable, os.path.join(CORPUS, "gen_proxy.py"), str(run.seed), str(n["proxy"]), os.path.join(ZVC_SRC, "gen_proxy.rs")], check=True)
+
+
+def proxy_nontrivial(inp, impl):
+    ks = []
+    if inp.startswith("proxy "):
+        ks.append("wire-" + inp.split(" FORM ")[1].split()[0])
+        if ":opt" in inp:
+            ks.append("optional-parameter")
+        if " N -" not in inp:
+            ks.append("renamed-method")
+        if " F more" in inp or " F oneway" in inp:
+            ks.append("flagged-method")
+        p = inp.split(" P ")[1].split(" A ")[0]
+        if any(len(x.split(":")) == 3 and x.split(":")[1] != "-" for x in p.split(",")):
+            ks.append("renamed-parameter")
+    if inp.startswith("proxyreply"):
+        ks.append("reply-" + impl.split(":")[0])
+    if inp.startswith("proxystream"):
+        ks.append("stream")
+    return ks
+
+
+def run_proxy(run, cfg, G):
+    for pre in ("proxy", "proxyreply", "proxystream"):
+        diff_run(run, G, ["proxy"], pre, proxy_nontrivial, "proxy-" + pre)
+    finish_corr(run, G, [])
+    run.cov["programs"] = corpus_sizes(run)["proxy"]
+    run.cov["rule"] = ("a corpus of %d proxy traits generated from the seed (methods of 1..4 words/digits, renamed or not; 0..4 parameters of u32 / i64 / bool / &str / String / Option / slice / struct / generic types with optional wire renames; elided and explicit lifetimes; more / oneway), "
+                       "compiled against /repo's macros on every run; every method is called in its plain, chain_ and chain-extension forms with random literal arguments on a capturing connection and the frames compared with the model and with the frame the property demands; "
+                       "plain methods are also fed 10 reply frames (success with/without parameters, declared / malformed / undeclared / standard errors, garbage) and streaming methods a 3-reply script; non-trivial = by form / feature; distinct = distinct case lines" % corpus_sizes(run)["proxy"])
+
+
 RX_ASSUME = [
     "which bytes are a JSON document of the requested shape is serde_json/serde's business: the model takes `decode this frame` as an opaque per-frame function (theorems hold for every such function); the harness instantiates it with the verdict of a fresh connection receiving that frame alone and cross-checks call receivers against serde_json::from_slice",
     "the ReadHalf contract: a read future that is dropped while pending has consumed nothing",
@@ -688,6 +735,16 @@ PROPS = {
             "PARTIAL by necessity: the full statement is false of the code (proved: C11_full_statement_false); what is proved is the counterexample and the sub-case that holds (no transport read between yield and use => nothing is touched)",
             "real undefined behaviour (a read through a reference that dangles after Vec growth) cannot be exhibited by a model; the model tracks reallocation as a generation counter, the run observes overwritten bytes only in the no-growth regime",
             "that receive_reply(&'r mut self) alone is safe is the borrow checker's guarantee (the unchecked lifetime extension in reply_stream.rs is what removes it); not a theorem here",
+        ],
+    },
+    "C12": {
+        "property_modules": ["Zlink.Properties.C12"], "lean_modules": ["Zlink.Properties.C12"],
+        "theorems": ["C12.C12_plain", "C12.C12_params", "C12.C12_forms_agree", "C12.C12_reply_mapping", "C12.C12_error_never_ok"],
+        "run": run_proxy, "pregen": pregen_corpora, "package": "zvc", "trusted_base": TB_COMMON,
+        "assumptions": [
+            "`for every trait the macro accepts` is approached by the corpus grammar (60 / 600 generated traits compiled per run), not proved about syn token streams; the theorems quantify over the declaration data type the generator spans",
+            "trait shapes the macro itself rejects at compile time (e.g. a generic method whose reference parameters have elided lifetimes: `'__proxy_params` is undeclared) are outside the property's domain and avoided by the generator",
+            "serde-derived serialisation of the generated parameter structs is as modelled (field order = declaration order, None skipped when annotated)",
         ],
     },
     "C13": {
